@@ -10,6 +10,8 @@ pub const LOOPV: [&str; 6] = ["I", "J", "K", "L", "M", "N"];
 pub const WHILEV: [&str; 4] = ["W1", "W2", "W3", "W4"];
 pub const FNS: [&str; 3] = ["FNA", "FNB", "FNC"];
 pub const PARAMS: [&str; 3] = ["X", "Y", "A"];
+/// array names: two are also FN parameter names, one is also a scalar
+pub const ARRS: [&str; 4] = ["X", "A", "T1", "Y"];
 pub const SVARS: [&str; 3] = ["A$", "S$", "T9$"];
 /// Marker variable of the stack-shape monitor (never used by generated code itself).
 pub const MARKER: &str = "Z9";
@@ -46,6 +48,8 @@ pub enum E {
     Bin(Box<E>, &'static str, Box<E>),
     Neg(Box<E>),
     Fn(usize, Vec<E>),
+    /// element of a one-dimensional array (never DIMed: bounds 0..10), subscript expression
+    A(String, Box<E>),
 }
 
 #[derive(Clone, Debug, PartialEq)]
@@ -67,6 +71,8 @@ pub enum Datum {
 pub enum St {
     Print(Vec<Item>, bool),
     Let(String, E, bool),
+    /// assignment to an array element: name, subscript, value
+    LetA(String, E, E),
     /// string assignment
     LetS(String, SE),
     Goto(usize),
@@ -124,10 +130,12 @@ pub struct Opts {
     pub frac: bool,
     /// string variables, literals, concatenation, LEFT$/RIGHT$/MID$/STR$/LEN/INSTR, string DATA and INPUT
     pub strings: bool,
+    /// numeric array elements (arrays called like scalars and like FN parameters) with constant and computed subscripts
+    pub arrays: bool,
 }
 
 impl Opts {
-    pub const NONE: Opts = Opts { data: false, func: false, tron: false, stop: false, max_lines: 40, input: false, frac: false, strings: false };
+    pub const NONE: Opts = Opts { data: false, func: false, tron: false, stop: false, max_lines: 40, input: false, frac: false, strings: false, arrays: false };
 }
 
 struct G<'a> {
@@ -191,6 +199,11 @@ impl<'a> G<'a> {
                 _ => E::Instr(Box::new(self.sexpr(1)), self.rng.pick(&["A", "I", "é", "x ", "12"]).to_string()),
             };
         }
+        if self.o.arrays && self.rng.chance(1, 7) {
+            let name = self.rng.pick(&ARRS).to_string();
+            let idx = self.index(params);
+            return E::A(name, Box::new(idx));
+        }
         if self.o.frac && self.rng.chance(1, 6) {
             return E::Q(*self.rng.pick(&[1i64, 2, 3, 5, 6, 10, -2, 1, 2]));
         }
@@ -205,6 +218,17 @@ impl<'a> G<'a> {
             0 | 1 => E::N(self.rng.range(0, 9)),
             2 => E::N(self.rng.range(-3, 20)),
             _ => E::V(self.var()),
+        }
+    }
+
+    /// subscript of an array element: mostly in range
+    fn index(&mut self, params: &[String]) -> E {
+        let v = if !params.is_empty() && self.rng.coin() { E::V(self.rng.pick(params).clone()) } else { E::V(self.var()) };
+        match self.rng.usize(8) {
+            0..=3 => E::N(self.rng.range(0, 11)),
+            4 => v,
+            5 => E::N(*self.rng.pick(&[11i64, -1, 10, 0])),
+            _ => E::Bin(Box::new(v), "MOD", Box::new(E::N(11))),
         }
     }
 
@@ -286,6 +310,11 @@ impl<'a> G<'a> {
         } else {
             e
         };
+        if self.o.arrays && self.rng.chance(1, 5) {
+            let name = self.rng.pick(&ARRS).to_string();
+            let idx = self.index(&[]);
+            return St::LetA(name, idx, e);
+        }
         St::Let(v, e, self.rng.chance(1, 5))
     }
 
@@ -853,6 +882,11 @@ impl<'a> Render<'a> {
             }
             E::Lit(t, _) => self.w(t),
             E::V(v) => self.w(v),
+            E::A(v, i) => {
+                let n = self.w(v);
+                let sp = if self.ch(5) == 0 { " " } else { "" };
+                format!("{}{}({})", n, sp, self.expr(i, 0))
+            }
             E::Neg(x) => {
                 let s = format!("-{}", self.expr(x, 12));
                 if parent > 0 {
@@ -955,6 +989,11 @@ impl<'a> Render<'a> {
                 } else {
                     format!("{}={}", vs, es)
                 }
+            }
+            St::LetA(v, i, e) => {
+                let es = self.expr(e, 0);
+                let is = self.expr(i, 0);
+                format!("{}({})={}", self.w(v), is, es)
             }
             St::LetS(v, e) => {
                 let es = self.sexpr(e);
@@ -1388,6 +1427,13 @@ impl<'a> M<'a> {
                 Some(x) => *x,
                 None => *self.vars.get(v).unwrap_or(&0.0),
             },
+            E::A(name, i) => {
+                let k = self.eval(i, env, depth, ln)?.floor();
+                if !(0.0..=10.0).contains(&k) {
+                    return Err(End::Error("SUBSCRIPT OUT OF RANGE", ln));
+                }
+                *self.vars.get(&format!("{}({})", name, k as i64)).unwrap_or(&0.0)
+            }
             E::Neg(x) => {
                 let v = self.eval(x, env, depth, ln)?;
                 if v == 0.0 {
@@ -1610,6 +1656,22 @@ impl<'a> M<'a> {
                     let f = self.stack.iter().filter(|f| matches!(f, Frame::For { .. })).count() as u32;
                     self.shape_log.push((f, self.stack.len() as u32 - f));
                 }
+            }
+            St::LetA(name, i, e) => {
+                self.kinds.insert("LET-array");
+                let x = self.eval(e, &none, 0, ln);
+                let k = self.eval(i, &none, 0, ln);
+                let (x, k) = match (x, k) {
+                    (Ok(x), Ok(k)) => (x, k.floor()),
+                    // which of two different errors is reported first is not documented
+                    (Err(End::Error(a, _)), Err(End::Error(b, _))) if a != b => return Err(End::Unspec("two errors in one assignment")),
+                    (Err(End::Unspec(u)), _) | (_, Err(End::Unspec(u))) => return Err(End::Unspec(u)),
+                    (Err(e), _) | (_, Err(e)) => return Err(e),
+                };
+                if !(0.0..=10.0).contains(&k) {
+                    return Err(End::Error("SUBSCRIPT OUT OF RANGE", ln));
+                }
+                self.vars.insert(format!("{}({})", name, k as i64), x);
             }
             St::LetS(v, e) => {
                 self.kinds.insert("LET$");
